@@ -84,6 +84,7 @@ func checkRuns(r *hlib.Rec, labels map[string]string, scenario string, runs []mi
 		rn = append(rn, x.name)
 	}
 	input := fmt.Sprintf("labels=%v scenario=%s runs=%v", lk, scenario, rn)
+	r.SampleCase(input)
 	for ri, mx := range runs {
 		passes, failsN := uint64(0), uint64(0)
 		rs := &hlib.RunSpec{Mode: "constant", Quiet: true, Metrics: m, Scenario: scenario, CompletionTimeout: time.Second,
